@@ -278,14 +278,14 @@ Qed.
 
 (* ================================================================== every BM run refines its collect moments *)
 Lemma bm_mreps_NoDup p : NoDup (map fst (c_mreps (bm_cfg p))).
-Proof. simpl. repeat constructor; simpl; intuition lia. Qed.
+Proof. simpl. destruct (p_mr p); simpl; repeat constructor; simpl; intuition lia. Qed.
 Lemma bm_tables_NoDup p : NoDup (map fst (c_tables (bm_cfg p))).
 Proof. simpl. constructor. Qed.
 
 Lemma bm_ok_at p w : ok_at (bm_cfg p) w = true.
 Proof.
   unfold ok_at. apply andb_true_iff. split; [apply andb_true_iff; split|].
-  - reflexivity.
+  - unfold mreps_ok. simpl. destruct (p_mr p); reflexivity.
   - unfold areps_ok. apply forallb_forall. intros a _. simpl. destruct (p_ar p); reflexivity.
   - reflexivity.
 Qed.
@@ -310,7 +310,7 @@ Lemma wstep_remove_attrs w i : w_attrs (wstep w (Remove i)) = w_attrs w.
 Proof. unfold wstep. simpl. destruct (has_agent w i); reflexivity. Qed.
 
 Lemma bm_validate p w : has_kt w -> validate_all w (c_mreps (bm_cfg p)) = Ok tt.
-Proof. intros [H1 H2]. simpl. rewrite H1, H2. reflexivity. Qed.
+Proof. intros [H1 H2]. simpl. destruct (p_mr p); simpl; [rewrite H1, H2|]; reflexivity. Qed.
 
 (* nondecreasing lists *)
 Fixpoint sortedZ (l : list Z) : Prop :=
